@@ -94,6 +94,15 @@ def _plain_case(vals, acc):
     x, y = vals
     acc.counters['evaluations'] += 2          # three (value, spec) pairs per case
     judge(acc, x, y, x == y, 'plain-equality', self_want=True)
+    # blanks around an operator-free spec do not belong to the word
+    for padded in (' ' + y, y + ' ', '\t' + y + '\n'):
+        acc.counters['evaluations'] += 1
+        got = call(x, padded)
+        if got[0] != 'ret' or bool(got[1]) is not (x == y):
+            acc.fail('plain-equality:padded-spec', {'value': x, 'spec': padded, 'got': repr(got),
+                                                    'want': x == y},
+                     {'value': x, 'spec': padded, 'want': x == y})
+            break
     judge(acc, x, '<in> ' + y, y in x, '<in>', self_want=True)
     judge(acc, x + y + x, '<in> %s' % y, True, '<in>', self_want=True)
 
@@ -140,6 +149,10 @@ def run(ctx):
     quoted = ['"abc"', "'abc'", '""', '"a', 'a"', '"a"b"', 'abc']
     E.run(rep, 'string-quoted', [list(STR_OPS), quoted, quoted, WS[:2]], _str_case)
     E.run(rep, 'plain-quoted', [quoted, quoted], _plain_case)
+    brackets = ['f(x)', 'Xeon(R)', '[a]', 'a)', 'f', '(', 'a[0]', 'x)(y']
+    E.run(rep, 'string-brackets', [list(STR_OPS), brackets, brackets, WS[:2]], _str_case)
+    E.run(rep, 'plain-brackets', [brackets, brackets], _plain_case)
+    E.run(rep, 'or-brackets', [brackets[:4], [(a, b) for a in brackets[:5] for b in brackets[:5]]], _or_case)
     E.run(rep, 'or-quoted', [quoted[:4], [(a, b) for a in quoted[:4] for b in quoted[:4]]], _or_case)
     alts = []
     for n in (1, 2, 3, 4):
